@@ -14,6 +14,8 @@
 #include <atomic>
 #include <chrono>
 #include <cstdint>
+#include <deque>
+#include <functional>
 #include <fstream>
 #include <future>
 #include <map>
@@ -209,8 +211,25 @@ void run_pool(const json& sc) {
     }
     g_next_worker = 0;
     tl_tid = destroyer;
+    const bool lvalue = sc.value("lvalue", false);
     std::mutex fm;
     std::map<int64_t, std::future<int64_t>> futures;
+    // "lvalue" scenarios (one submitter, one worker): every task is the SAME named std::function object,
+    // submitted again and again (it takes its ticket from a FIFO of pending tickets); submit() must copy it
+    std::mutex pm;
+    std::deque<std::pair<int64_t, bool>> pending;
+    std::function<int64_t()> named_task = [&pm, &pending]() -> int64_t {
+        std::pair<int64_t, bool> job;
+        {
+            const std::lock_guard<std::mutex> lock{pm};
+            job = pending.front();
+            pending.pop_front();
+        }
+        record("Run", job.first, true, 0, false);
+        sched_sink("harness.in_task");
+        if (job.second) throw ThrowingTask{};
+        return job.first * 2;
+    };
     {
         osmium::thread::Pool pool{nworkers, sc["max"].get<std::size_t>()};
         std::vector<std::thread> threads;
@@ -226,6 +245,16 @@ void run_pool(const json& sc) {
                     sched_sink("harness.before_submit");
                     const bool th = std::find(throwing.begin(), throwing.end(), x) != throwing.end();
                     record("PushCall", x, true, 0, false);
+                    if (lvalue) {
+                        {
+                            const std::lock_guard<std::mutex> lock{pm};
+                            pending.emplace_back(x, th);
+                        }
+                        auto f = pool.submit(named_task);
+                        const std::lock_guard<std::mutex> lock{fm};
+                        futures.emplace(x, std::move(f));
+                        continue;
+                    }
                     auto f = pool.submit([x, th]() -> int64_t {
                         record("Run", x, true, 0, false);
                         sched_sink("harness.in_task");
